@@ -344,6 +344,66 @@ def rule_r7(ctx):
     return rr
 
 
+def rule_r8(ctx):
+    """Private name mangling (language reference 6.2.1): an identifier `__spam` that occurs textually
+    inside a class definition (in the class body or in its methods) and does not end in two
+    underscores is spelt `_Class__spam` by the compiler - in the symbol table, in attribute access
+    and in the class dict.  The converter works on the AST, where the identifier is still `__spam`,
+    and its output contains no class statement at all, so nothing is mangled at run time either.
+    Two structural consequences are checked: (a) the key used for `symtable` lookups is the raw
+    identifier (symtable has the mangled one: KeyError during conversion); (b) attribute names are
+    copied verbatim (`self.__x` becomes the attribute `__x`, not `_A__x`)."""
+    from .exprcopy import all_expr_paths
+
+    rr = RuleResult("C12-R8", "class-private names: symbol-table keys and attribute names are mangled like the compiler does")
+    rr.floor = 3
+    T = ctx.tmpl
+    root, leaves, glob = T.namespace_leaves()
+    # (a) symtable keys
+    for ci in leaves:
+        if ci is glob:
+            continue
+        for m in ("get_assign", "get_load_name"):
+            e = T.namespace_method(ci, m)
+            raw = sorted({k for p in e.paths for k in p.assign if re.search(r"symt\.lookup\(Name\.id\)", k)})
+            cooked = sorted({k for p in e.paths for k in p.assign if "symt.lookup(" in k and not re.search(r"symt\.lookup\(Name\.id\)", k)})
+            if not raw and not cooked:
+                continue
+            rr.instances += 1
+            what = f"{ci.name}.{m}|symtable-key"
+            if raw:
+                rr.fail(
+                    f"C12-R8|{ci.name}|symtable-key|unmangled",
+                    f"{ci.name}.{m}: the symbol table is asked for the identifier exactly as it stands in the AST (`{raw[0].split(':', 1)[-1][:60]}`); for a class-private name (`__x` inside `class A`, also as a local of a method) the table holds `_A__x`: `class A: __x = 1`, `def f(self): __t = 5` and `def __helper(self)` stop the conversion with KeyError",
+                    where=ci.module.rel, what=what,
+                )
+            else:
+                rr.ok(what, sample={"rule": "C12-R8", "lookup": cooked[0][:80]})
+    # (b) attribute names
+    seen = set()
+    for kind, paths in all_expr_paths(ctx).items():
+        if kind != "Attribute":
+            continue
+        for pr in paths:
+            if pr.outcome != "ok":
+                continue
+            t = getattr(pr.result, "inner", pr.result)
+            for c in iter_tnodes(t) if isinstance(t, TNode) else []:
+                if c.kind == "Attribute":
+                    rr.instances += 1
+                    a = c.fields.get("attr")
+                    if isinstance(a, UPrim) and "copier" not in seen:
+                        seen.add("copier")
+                        rr.fail(
+                            "C12-R8|Attribute.attr|unmangled",
+                            f"generic expression copier ({c.site}): Attribute.attr is copied verbatim; inside a class `self.__x` means the attribute `_A__x` (6.2.1), the converted program reads and writes `__x`: `vars(obj)` differs, `obj._A__x` fails, and a subclass that uses the same private name overwrites the base class's",
+                            where=str(c.site), what="Attribute.attr|copier",
+                        )
+                    elif not isinstance(a, UPrim):
+                        rr.ok("Attribute.attr|copier")
+    return rr
+
+
 def rule_c06r6(ctx):
     from .c06 import rule_r6
 
@@ -392,4 +452,4 @@ def rule_c07r2(ctx):
     return rr
 
 
-RULES = [("C07-R2", rule_c07r2), ("C12-R1", rule_r1), ("C12-R2", rule_r23), ("C12-R4", rule_r4), ("C12-R5", rule_r5), ("C12-R7", rule_r7), ("C12-R6", rule_c06r6), ("C06-R4", rule_c06r4)]
+RULES = [("C07-R2", rule_c07r2), ("C12-R1", rule_r1), ("C12-R2", rule_r23), ("C12-R4", rule_r4), ("C12-R5", rule_r5), ("C12-R7", rule_r7), ("C12-R8", rule_r8), ("C12-R6", rule_c06r6), ("C06-R4", rule_c06r4)]
